@@ -130,6 +130,16 @@ let bign_of = function
   | TNum s -> let acc = ref N0 in
     String.iter (fun c -> acc := N.add (N.mul !acc (n_of_int 10)) (n_of_int (Char.code c - 48))) s; !acc
   | _ -> failwith "num expected"
+let n_of_dec (s : str) : n = let acc = ref N0 in
+  String.iter (fun c -> acc := N.add (N.mul !acc (n_of_int 10)) (n_of_int (Char.code c - 48))) s; !acc
+let z_of_dec (s : str) : z =
+  if String.length s > 0 && s.[0] = '-' then Z.opp (Z.of_N (n_of_dec (String.sub s 1 (String.length s - 1))))
+  else Z.of_N (n_of_dec s)
+let dec_of_n (x : n) : str =
+  if x = N0 then "0" else begin
+    let ten = n_of_int 10 in
+    let rec go x acc = if x = N0 then acc else go (N.div x ten) (string_of_int (int_of_n (N.modulo x ten)) ^ acc) in
+    go x "" end
 let rec chunks2 = function [] -> [] | a :: b :: r -> (a, b) :: chunks2 r | _ -> failwith "pairs"
 
 (* ---------- printing ---------- *)
@@ -251,6 +261,32 @@ let run_op (g1 : bool) (dbg : bool) (op : str) (a : tok list) : str =
   | "pok_verify" ->
     in_m unit_res (pok_wrapper_verify k o c dbg { pok_scheme = scheme_of (arg 0); pok_u = sigpt_of (arg 1); pok_v = sigpt_of (arg 2) }
                      (pkpt_of (arg 3)) (bytes_of (arg 4)) (scalar_of (arg 5)))
+  | "pokts_generate" ->
+    let now_ns = bign_of (arg 4) in
+    in_m (fun (r, w) -> (match r with
+        | Ok (p : pok_ts) -> Printf.sprintf "ok:%s:%s:%s:%s" (scheme_name p.pts_proof.pok_scheme) (esig p.pts_proof.pok_u) (esig p.pts_proof.pok_v) (dec_of_n p.pts_timestamp)
+        | Err e -> "err:" ^ err_name e) ^ Printf.sprintf ":draws=%d" (int_of_nat w))
+      (pokts_generate k o c dbg (ent_of (list_of (arg 3))) (bytes_of (arg 0)) { tg_scheme = scheme_of (arg 1); tg_pt = sigpt_of (arg 2) } now_ns O)
+  | "pokts_verify_rel" ->
+    let sk = scalar_of (arg 0) and x = scalar_of (arg 1) and s = scheme_of (arg 2) and msg = bytes_of (arg 3) in
+    let offset = (match arg 4 with TWord w -> z_of_dec w | _ -> failwith "offset") in
+    let tmo = (match arg 5 with TNone -> None | TSome t -> Some (bign_of t) | _ -> failwith "timeout") in
+    let now_ns = bign_of (arg 6) in
+    let now_ms = Z.of_N (N.div now_ns (n_of_dec "1000000")) in
+    let tw = Z.add now_ms offset in
+    let max64 = Z.of_N (N.sub (N.pow (n_of_int 2) (n_of_int 64)) (n_of_int 1)) in
+    let t = if Z.ltb tw Z0 then N0 else if Z.ltb max64 tw then Z.to_N max64 else Z.to_N tw in
+    let dst = (match s with Basic -> c.dST_NUL | Aug -> c.dST_AUG | Pop -> c.dST_POPSIG) in
+    (match sk_sign k o c sk s msg with
+     | Err e -> "sign-failed"
+     | Ok sg ->
+       let u = pmul k Gsig (hash_to_point k o msg dst) x in
+       (match compute_y k o u t with
+        | Val y ->
+          let v = pneg k Gsig (pmul k Gsig sg.tg_pt (k.fadd x y)) in
+          let p = { pts_proof = { pok_scheme = s; pok_u = u; pok_v = v }; pts_timestamp = t } in
+          in_m unit_res (pokts_verify k o c dbg p (public_key k sk) msg tmo now_ns)
+        | Panic -> "panic" | Loop -> "loop"))
   | "compute_y" -> in_m fmt_scalar (compute_y k o (sigpt_of (arg 0)) (bign_of (arg 1)))
   | _ -> "unknown-op:" ^ op
 
